@@ -408,3 +408,76 @@ func VerifDataURITwin(n int) {
 	out := DataURI(New(), in)
 	vAssert(len(out) > len(in)+100, "twin: must fail")
 }
+
+var verifDataURIUnits = []string{"%23", "a", "x", "y"}
+
+// VerifDataURIUnits: data:<head><n payload units>, each unit chosen from {"%23" (needs escaping), "a", "x", "y"};
+// longer payloads than the arbitrary-byte harnesses reach: exercises the base64-versus-percent length decision and
+// a registered minifier (stub for text/y drops x, doubles y) that changes the payload length.
+func VerifDataURIUnits(n int) {
+	head := []string{",", "text/y,", "text/y;base64,"}[vChoice("head", 3)]
+	useStub := vBool("stub")
+	pay := make([]byte, 0, 3*n)
+	for i := 0; i < n; i++ {
+		pay = append(pay, verifDataURIUnits[vChoice("u"+string(rune('a'+i)), len(verifDataURIUnits))]...)
+	}
+	in := append(append(make([]byte, 0, 3*n+64), "data:"...), head...)
+	if head == "text/y;base64," {
+		// the same payload, base64 encoded by the reference encoder
+		raw, _ := refPctDecode(pay)
+		in = append(in, refB64Encode(raw)...)
+	} else {
+		in = append(in, pay...)
+	}
+	verifDataURICheck(in, useStub, "text/y")
+}
+
+func refB64Encode(b []byte) []byte {
+	const tbl = "ABCDEFGHIJKLMNOPQRSTUVWXYZabcdefghijklmnopqrstuvwxyz0123456789+/"
+	out := make([]byte, 0, (len(b)+2)/3*4)
+	for i := 0; i < len(b); i += 3 {
+		var v uint32
+		k := 0
+		for ; k < 3 && i+k < len(b); k++ {
+			v |= uint32(b[i+k]) << uint(16-8*k)
+		}
+		out = append(out, tbl[v>>18&63], tbl[v>>12&63])
+		if k > 1 {
+			out = append(out, tbl[v>>6&63])
+		} else {
+			out = append(out, '=')
+		}
+		if k > 2 {
+			out = append(out, tbl[v&63])
+		} else {
+			out = append(out, '=')
+		}
+	}
+	return out
+}
+
+// VerifDataURIRuns: payload = k x "%23" + i x "x" + j x "y" (+ optional "a") with k <= n, i <= 3, j <= 2:
+// long payloads where the registered minifier shrinks (x) or grows (y) the payload across base64 quantum borders.
+func VerifDataURIRuns(n int) {
+	head := []string{",", "text/y,", "text/y;base64,"}[vChoice("head", 3)]
+	useStub := vBool("stub")
+	k, i, j := vChoice("k", n+1), vChoice("i", 4), vChoice("j", 3)
+	pay := make([]byte, 0, 3*n+8)
+	for c := 0; c < k; c++ {
+		pay = append(pay, "%23"...)
+	}
+	for c := 0; c < i; c++ {
+		pay = append(pay, 'x')
+	}
+	for c := 0; c < j; c++ {
+		pay = append(pay, 'y')
+	}
+	in := append(append(make([]byte, 0, 3*n+64), "data:"...), head...)
+	if head == "text/y;base64," {
+		raw, _ := refPctDecode(pay)
+		in = append(in, refB64Encode(raw)...)
+	} else {
+		in = append(in, pay...)
+	}
+	verifDataURICheck(in, useStub, "text/y")
+}
